@@ -278,5 +278,58 @@ Translate(s, from, to) ==
 Lower(c) == IF c >= 65 /\ c <= 90 THEN c + 32 ELSE c
 LowerStr(s) == [i \in 1..Len(s) |-> Lower(s[i])]
 
+
+(***************************************************************************)
+(* number -> string beyond the exactly representable range: an EXAMPLE     *)
+(* TABLE (not an enumeration, not computed: TLA+ has integers only) of     *)
+(* expressions with the decimal expansion XPath 1.0 4.2 prescribes - no    *)
+(* exponent notation, integers without a point, at least one digit before  *)
+(* the point, as many digits after it as needed to distinguish the number  *)
+(* from all other IEEE 754 values.                                         *)
+\*   string(1000000*1000000)                  = "1000000000000"
+\*   string(1000000*1000000*1000000*1000)     = "1000000000000000000000"
+\*   string(-(1000000*1000000))               = "-1000000000000"
+\*   string(1000000*1000000+0.5)              = "1000000000000.5"
+\*   string(1 div 1024 div 1024)              = "0.00000095367431640625"
+\*   string(1 div (1000000*10))               = "0.0000001"
+\*   string(9007199254740992)                 = "9007199254740992"
+\*   string(0.1+0.2)                          = "0.30000000000000004"
+\*   string(1 div 3)                          = "0.3333333333333333"
+\*   string(123456789012)                     = "123456789012"
+\*   string(1.50)                             = "1.5"
+\*   string(007)                              = "7"
+\*   string(.5)                               = "0.5"
+\*   string(5.)                               = "5"
+(***************************************************************************)
+NumStringTable ==
+  << [x |-> <<115, 116, 114, 105, 110, 103, 40, 49, 48, 48, 48, 48, 48, 48, 42, 49, 48, 48, 48, 48, 48, 48, 41>>,
+      s |-> <<49, 48, 48, 48, 48, 48, 48, 48, 48, 48, 48, 48, 48>>],
+     [x |-> <<115, 116, 114, 105, 110, 103, 40, 49, 48, 48, 48, 48, 48, 48, 42, 49, 48, 48, 48, 48, 48, 48, 42, 49, 48, 48, 48, 48, 48, 48, 42, 49, 48, 48, 48, 41>>,
+      s |-> <<49, 48, 48, 48, 48, 48, 48, 48, 48, 48, 48, 48, 48, 48, 48, 48, 48, 48, 48, 48, 48, 48>>],
+     [x |-> <<115, 116, 114, 105, 110, 103, 40, 45, 40, 49, 48, 48, 48, 48, 48, 48, 42, 49, 48, 48, 48, 48, 48, 48, 41, 41>>,
+      s |-> <<45, 49, 48, 48, 48, 48, 48, 48, 48, 48, 48, 48, 48, 48>>],
+     [x |-> <<115, 116, 114, 105, 110, 103, 40, 49, 48, 48, 48, 48, 48, 48, 42, 49, 48, 48, 48, 48, 48, 48, 43, 48, 46, 53, 41>>,
+      s |-> <<49, 48, 48, 48, 48, 48, 48, 48, 48, 48, 48, 48, 48, 46, 53>>],
+     [x |-> <<115, 116, 114, 105, 110, 103, 40, 49, 32, 100, 105, 118, 32, 49, 48, 50, 52, 32, 100, 105, 118, 32, 49, 48, 50, 52, 41>>,
+      s |-> <<48, 46, 48, 48, 48, 48, 48, 48, 57, 53, 51, 54, 55, 52, 51, 49, 54, 52, 48, 54, 50, 53>>],
+     [x |-> <<115, 116, 114, 105, 110, 103, 40, 49, 32, 100, 105, 118, 32, 40, 49, 48, 48, 48, 48, 48, 48, 42, 49, 48, 41, 41>>,
+      s |-> <<48, 46, 48, 48, 48, 48, 48, 48, 49>>],
+     [x |-> <<115, 116, 114, 105, 110, 103, 40, 57, 48, 48, 55, 49, 57, 57, 50, 53, 52, 55, 52, 48, 57, 57, 50, 41>>,
+      s |-> <<57, 48, 48, 55, 49, 57, 57, 50, 53, 52, 55, 52, 48, 57, 57, 50>>],
+     [x |-> <<115, 116, 114, 105, 110, 103, 40, 48, 46, 49, 43, 48, 46, 50, 41>>,
+      s |-> <<48, 46, 51, 48, 48, 48, 48, 48, 48, 48, 48, 48, 48, 48, 48, 48, 48, 48, 52>>],
+     [x |-> <<115, 116, 114, 105, 110, 103, 40, 49, 32, 100, 105, 118, 32, 51, 41>>,
+      s |-> <<48, 46, 51, 51, 51, 51, 51, 51, 51, 51, 51, 51, 51, 51, 51, 51, 51, 51>>],
+     [x |-> <<115, 116, 114, 105, 110, 103, 40, 49, 50, 51, 52, 53, 54, 55, 56, 57, 48, 49, 50, 41>>,
+      s |-> <<49, 50, 51, 52, 53, 54, 55, 56, 57, 48, 49, 50>>],
+     [x |-> <<115, 116, 114, 105, 110, 103, 40, 49, 46, 53, 48, 41>>,
+      s |-> <<49, 46, 53>>],
+     [x |-> <<115, 116, 114, 105, 110, 103, 40, 48, 48, 55, 41>>,
+      s |-> <<55>>],
+     [x |-> <<115, 116, 114, 105, 110, 103, 40, 46, 53, 41>>,
+      s |-> <<48, 46, 53>>],
+     [x |-> <<115, 116, 114, 105, 110, 103, 40, 53, 46, 41>>,
+      s |-> <<53>>] >>
+
 BoolStr(b) == IF b THEN <<116, 114, 117, 101>> ELSE <<102, 97, 108, 115, 101>>
 =============================================================================
